@@ -27,6 +27,13 @@ CALLS = {
                   'preamble'),
     'pre_badcodec': ('write_preamble', ['x'], {'encoding': 'nope'}, False,
                      'preamble'),
+    # text the codec cannot represent under strict encoding
+    'pre_unenc_surrogate': ('write_preamble', ['J\udcf6rg'],
+                            {'encoding': 'utf-8'}, False, 'preamble'),
+    'pre_unenc_latin': ('write_preamble', ['caf\xe9 \u2603'],
+                        {'encoding': 'latin-1'}, False, 'preamble'),
+    'pre_unenc_inherited': ('write_preamble', ['/\udcff.txt'], {}, False,
+                            'preamble'),
     'meta': ('write_meta', [{'k': 'v'}], {}, True, 'meta'),
     'meta_empty': ('write_meta', [{}], {}, False, 'meta'),
     'meta_list': ('write_meta', [[1]], {}, False, 'meta'),
